@@ -84,6 +84,14 @@ def rand_pair(rng, i, simple=False, span=100, sizes=(20, 240), lobes=False):
     """pairs of shapes by configuration family: random placement (crossing / disjoint / touching by chance), B nested strictly
     inside A (results with holes), a crossing next to an on-curve node of A (split-window edge), A enclosing a pocket with B"""
     fam = i % 5
+    if fam == 2:
+        # two circles whose two crossing points both lie on ONE quarter-arc of each (centres offset along a diagonal): one pair of segments
+        # crosses twice
+        r = float(rng.randint(60, 120))
+        o = (float(rng.randint(-span, span)), float(rng.randint(-span, span)))
+        phi = math.radians(rng.uniform(40, 50)) + rng.choice([0, 1, 2, 3]) * math.pi / 2
+        d = r * rng.uniform(1.6, 1.85)
+        return {"kind": "circle", "r": r, "o": o}, {"kind": "circle", "r": r, "o": (o[0] + d * math.cos(phi), o[1] + d * math.sin(phi))}
     if fam == 1:
         # nested: a small shape well inside a large one
         w, h = float(rng.randint(150, 240)), float(rng.randint(150, 240))
